@@ -7,7 +7,7 @@ import re
 
 from ..cfg import cfg_of
 from ..model import AnalysisError, NotConst, Sym, dotted, norm, walk_own
-from .common import bool_atoms, bool_eval, find_calls, guards_of, key_of, leads_only_to_raise
+from .common import bool_atoms, bool_eval, find_calls, guards_of, key_of, leads_only_to_raise, resolve_locals
 
 EXPLANATION = (
     "Finite, table-shaped static decision: (R1) the `'x' in kw` exclusion predicates of Adjustments.__init__ are "
@@ -182,6 +182,16 @@ def rule_r4(ctx, rid="C20.R4"):
         ctx.r.ok(rid, "unknown kinds = given - KNOWN_PROXY_HEADERS", f.loc(uv[0]))
     else:
         ctx.r.violation(rid, key_of(f, None, "unknown-values-formula"), "unknown_values is not trusted_proxy_headers - KNOWN_PROXY_HEADERS", f.loc())
+    # the hop count the proxy-header parser slices with is a number: an unset trusted_proxy_count becomes 1
+    sets = [n for n in g.nodes if n.kind == "stmt" and isinstance(n.ast, ast.Assign) and any(dotted(t) == "self.trusted_proxy_count" for t in n.ast.targets)]
+    nones = [b for b in g.nodes if b.kind == "branch" and isinstance(b.ast, ast.Compare) and dotted(b.ast.left) == "self.trusted_proxy_count" and isinstance(b.ast.comparators[0], ast.Constant) and b.ast.comparators[0].value is None
+             and ((isinstance(b.ast.ops[0], ast.Is) and b.polarity) or (isinstance(b.ast.ops[0], ast.IsNot) and not b.polarity))]
+    good = [n for n in sets if isinstance(n.ast.value, ast.Constant) and n.ast.value.value == 1]
+    notnone = [b for b in g.nodes if b.kind == "branch" and any(b.ast is x.ast for x in nones) and b not in nones]
+    if nones and good and g.path(g.entry, g.exit, avoid=good + notnone, follow_exc=False) is None:
+        ctx.r.ok(rid, "an unset trusted_proxy_count defaults to 1 on every accepting path", f.loc(good[0].ast))
+    else:
+        ctx.r.violation(rid, key_of(f, None, "count-default-missing"), "an unset trusted_proxy_count (None) can leave Adjustments.__init__ unchanged: the proxy-header parser slices with it ([-None:] raises) and every proxied request is answered 400", f.loc())
 
 
 def rule_r5(ctx):
@@ -512,7 +522,35 @@ def rule_r10(ctx):
             ctx.r.violation(rid, key_of(f, None, "chmod-args"), "os.chmod is called with %s" % norm(c)[:60], f.loc(n.ast))
 
 
-RULES = [rule_r1, rule_r2, rule_r3, rule_r4, rule_r5, rule_r6, rule_r7, rule_r9, rule_r10]
+def rule_r11(ctx, rid="C20.R11"):
+    ctx.r.rule(rid, "accepted settings are applied in every server flavour: each call of the I/O loop made by a server's run() binds the loop's `timeout` to adj.asyncore_loop_timeout and its `use_poll` to adj.asyncore_use_poll (the single-socket and the multi-socket server are siblings: a setting honoured by one and dropped by the other is silently ignored for some listen configurations)")
+    p = ctx.p
+    loopf = p.func("wasyncore.loop")
+    params = list(loopf.params)
+    want = {"timeout": "asyncore_loop_timeout", "use_poll": "asyncore_use_poll"}
+    n = 0
+    for f in sorted(p.functions.values(), key=lambda f: f.qual):
+        if not f.qual.startswith("server.") or f.name != "run":
+            continue
+        for c in ast.walk(f.node):
+            if not (isinstance(c, ast.Call) and isinstance(c.func, ast.Attribute) and c.func.attr == "loop" and (dotted(c.func.value) or "").endswith("asyncore")):
+                continue
+            n += 1
+            bound = {params[i]: a for i, a in enumerate(c.args) if i < len(params)}
+            for kw in c.keywords:
+                if kw.arg:
+                    bound[kw.arg] = kw.value
+            for par, setting in sorted(want.items()):
+                e = bound.get(par)
+                src = resolve_locals(f, e) if e is not None else None
+                if src is not None and (dotted(src) or "").endswith("adj." + setting):
+                    ctx.r.ok(rid, "%s: loop(%s=adj.%s)" % (f.qual, par, setting), f.loc(c))
+                else:
+                    ctx.r.violation(rid, key_of(f, None, "loop-setting-dropped::" + setting), "%s runs the I/O loop with %s = %s: the accepted setting %s is ignored by this server flavour" % (f.qual, par, norm(e) if e is not None else "the loop's default", setting), f.loc(c))
+    ctx.r.floor(rid, n, 2, "I/O loop calls in server run() methods")
+
+
+RULES = [rule_r1, rule_r2, rule_r3, rule_r4, rule_r5, rule_r6, rule_r7, rule_r9, rule_r10, rule_r11]
 
 from ..selftest import M, T, V  # noqa: E402
 
